@@ -408,6 +408,17 @@ def run(prog, chk):
     if memrules.signed_index_lower_bound(prog, r6) < 5:
         raise Broken("fewer than 5 signed-index accesses to fixed-size arrays found")
 
+    # necessary conditions shared with sibling checks: a stale window pointer reads freed memory on long tokens (C08 R1); a
+    # token kind missing from a production's switch makes the parser stop with CIF_INTERNAL_ERROR on that input (C01 R2);
+    # an unterminated token at end of input keeps its tail (C12 R6)
+    from . import c08, c01, c12
+    c08.stale_pointer_rule(prog, chk, rid="R7", primary=False)
+    c01.value_dispatch_rule(prog, chk, rid="R8", primary=False)
+    r9 = chk.rule("R9-unterminated-token-keeps-its-tail", "when a scan function has reported an unterminated string / text field at "
+                  "end of input, the token it hands over still ends where the input ends (shared with C12 R6)", primary=False, floor=3)
+    if c12.unterminated_rule(prog, r9) < 3:
+        raise Broken("fewer than 3 scan functions with an end-of-input recovery found")
+
     r4 = chk.rule("R4-termination-and-read-bounds", "no loop of the parser units is idempotent (call-free, without loop-carried state: "
                   "such a loop cannot make progress once entered); no pointer into the read buffer is dereferenced under `<=` "
                   "against an exclusive end", primary=False, floor=60)
